@@ -88,6 +88,20 @@ HIST = ["?names = ...$1.dag.sorted_variables_by_type[IndividualLatentVariable]..
         "?a.append(?st.get_tensor_value('nll_attach_ind'))", "?r.append(?st.get_tensor_value('nll_regul_ind_sum_ind'))"]
 
 
+def r5_per_subject_shapes(ctx):
+    """'shaped as the model expects': the optimiser's point of one subject is handed back as {variable: value without the leading subject axis,
+    as a list} - the same conversion whatever the size of the variable (a one-source `sources` stays a list of length 1)."""
+    import re as _re
+    ctx.rule("C17.R5", "scipy_minimize: each variable is returned as `v.squeeze(0).tolist()`, whatever its size", 1)
+    f = ctx.ix.func(SC, "ScipyMinimizeAlgorithm._get_individual_parameters_patient_master", "C17.R5")
+    rets = [ln for ln in Canon(f.node).lines(True, True) if ln.startswith("return ")]
+    text = "; ".join(rets)
+    ok = len(rets) == 1 and _re.fullmatch(r"return \{(%\d+): (%\d+)\.detach\(\)\.squeeze\(0\)\.tolist\(\) for \1, \2 in (%\d+)\.items\(\)\}", rets[0]) is not None
+    ctx.form("C17.R5", f, f.node, text, {text} if ok else set(), [".squeeze(0)", ".tolist()"], "uniform conversion of every variable",
+             "the conversion of a subject's values depends on their size / is no longer `squeeze(0).tolist()`: a variable with one entry (a single source) loses its axis and the model refuses it later",
+             forbidden=[r"\.item\(\)", r"numel\(\)", r"\.squeeze\(\)", r"if len\("], construct="per-subject conversion")
+
+
 def r2_burn_in(ctx, rid="C17.R2", title="histories appended only after burn-in, all three at every kept iteration"):
     ctx.rule(rid, title, 3)
     g = ctx.ix.func(MC, "McmcPersonalizeAlgorithm._get_individual_parameters", rid)
@@ -309,6 +323,7 @@ def r4_objective(ctx):
 
 
 def rules(ctx):
+    r5_per_subject_shapes(ctx)
     r1_order(ctx)
     r2_burn_in(ctx)
     r3_axes(ctx)
